@@ -1248,3 +1248,259 @@ VARIANTS += [
       **pred(LOOP_PRED, PRED_METHOD, info=sub(INFO_HELPER_CTOR, 'return referrerInfo{subject: subject, artifactType: artifactType, annotations: annotations}', 'return referrerInfo{subject: &ocispec.Descriptor{}, artifactType: artifactType, annotations: annotations}'))),
  dict(name='p3-filter-predicate-closure', expect='silent', **pred(LOOP_PRED_CLOSURE)),
 ]
+
+# ---------------------------------------------------------------------------------------------------------------
+# fourth pass. Class Q: the media-type test as a shared predicate that *returns* the comparison
+# (`return m == A || m == B`), as a negated predicate, as membership in a read-only package-level set; class R: the
+# double media-type dispatch of the lookup as ONE lookup in a read-only package-level decoder table.
+P4_MTERR = '\t\treturn ocispec.Descriptor{}, fmt.Errorf("sigManifestDesc.MediaType requires %q or %q, got %q", artifactspec.MediaTypeArtifactManifest, ocispec.MediaTypeImageManifest, sigManifestDesc.MediaType)\n\t}\n'
+P4_MT_PRED = '\tif !isManifestMediaType(sigManifestDesc.MediaType) {\n' + P4_MTERR
+P4_PRED_OR = '\nfunc isManifestMediaType(mediaType string) bool {\n\treturn mediaType == artifactspec.MediaTypeArtifactManifest || mediaType == ocispec.MediaTypeImageManifest\n}\n'
+P4_PRED_SWITCH = '\nfunc isManifestMediaType(mediaType string) bool {\n\tswitch mediaType {\n\tcase artifactspec.MediaTypeArtifactManifest, ocispec.MediaTypeImageManifest:\n\t\treturn true\n\t}\n\treturn false\n}\n'
+P4_PRED_NEG = '\nfunc unsupportedMediaType(mediaType string) bool {\n\treturn mediaType != artifactspec.MediaTypeArtifactManifest && mediaType != ocispec.MediaTypeImageManifest\n}\n'
+P4_PRED_NESTED = P4_PRED_OR + '\nfunc acceptable(d ocispec.Descriptor) bool {\n\treturn d.Size >= 0 && isManifestMediaType(d.MediaType)\n}\n'
+P4_SET = '\nvar manifestMediaTypes = map[string]bool{\n\tartifactspec.MediaTypeArtifactManifest: true,\n\tocispec.MediaTypeImageManifest:         true,\n}\n'
+P4_SET_STRUCT = '\nvar manifestMediaTypes = map[string]struct{}{\n\tartifactspec.MediaTypeArtifactManifest: {},\n\tocispec.MediaTypeImageManifest:         {},\n}\n'
+P4_TAIL = '// uploadSignatureManifest uploads the signature manifest to the registry\n'
+
+def p4lookup(guard, extra):
+    return dict(file=R, find=LOOKUP_MT0, replace=guard, edits=[(R, P4_TAIL, extra.lstrip('\n') + '\n' + P4_TAIL)])
+
+# the listing guarded by the predicate in front of the switch (the default arm then falls through to the shared tail)
+P4_LIST_DEFAULT0 = '\t\tdefault:\n\t\t\tcontinue\n\t\t}\n'
+P4_LIST_HEAD0 = '\tfor _, node := range predecessors {\n\t\tswitch node.MediaType {\n'
+def p4list(guard, extra, lookup_guard=None):
+    e = [(R, P4_LIST_DEFAULT0, '\t\tdefault:\n\t\t}\n'), (R, P4_TAIL, extra.lstrip('\n') + '\n' + P4_TAIL)]
+    if lookup_guard is not None:
+        e.append((R, LOOKUP_MT0, lookup_guard))
+    return dict(file=R, find=P4_LIST_HEAD0, replace='\tfor _, node := range predecessors {\n' + guard + '\t\tswitch node.MediaType {\n', edits=e)
+
+VARIANTS += [
+ # Q, lookup side
+ dict(name='p4-lookup-predicate-returns-disjunction', expect='silent', **p4lookup(P4_MT_PRED, P4_PRED_OR)),
+ dict(name='p4-lookup-predicate-switch', expect='silent', **p4lookup(P4_MT_PRED, P4_PRED_SWITCH)),
+ dict(name='p4-lookup-predicate-negated', expect='silent', **p4lookup('\tif unsupportedMediaType(sigManifestDesc.MediaType) {\n' + P4_MTERR, P4_PRED_NEG)),
+ dict(name='p4-lookup-predicate-nested', expect='silent', **p4lookup('\tif !acceptable(sigManifestDesc) {\n' + P4_MTERR, P4_PRED_NESTED)),
+ dict(name='p4-lookup-set-membership', expect='silent', **p4lookup('\tif !manifestMediaTypes[sigManifestDesc.MediaType] {\n' + P4_MTERR, P4_SET)),
+ dict(name='p4-lookup-set-membership-comma-ok', expect='silent', **p4lookup('\tif _, known := manifestMediaTypes[sigManifestDesc.MediaType]; !known {\n' + P4_MTERR, P4_SET_STRUCT)),
+ dict(name='p4-lookup-predicate-second-disjunct-wrong', expect='flagged(lookup/media-type)',
+      **p4lookup(P4_MT_PRED, sub(P4_PRED_OR, '|| mediaType == ocispec.MediaTypeImageManifest', '|| mediaType != ""')),
+      why='the returned comparison admits any non-empty media type'),
+ dict(name='p4-lookup-predicate-first-disjunct-wrong', expect='flagged(lookup/media-type)',
+      **p4lookup(P4_MT_PRED, sub(P4_PRED_OR, 'mediaType == artifactspec.MediaTypeArtifactManifest ||', 'mediaType == "" ||'))),
+ dict(name='p4-lookup-predicate-always-true', expect='flagged(lookup/media-type)',
+      **p4lookup(P4_MT_PRED, '\nfunc isManifestMediaType(mediaType string) bool {\n\treturn true\n}\n')),
+ dict(name='p4-lookup-predicate-on-constant', expect='flagged(lookup/media-type)',
+      **p4lookup(sub(P4_MT_PRED, 'isManifestMediaType(sigManifestDesc.MediaType)', 'isManifestMediaType(ocispec.MediaTypeImageManifest)'), P4_PRED_OR),
+      why='the predicate is asked about a constant, not about the descriptor'),
+ dict(name='p4-lookup-predicate-negated-wrong', expect='flagged(lookup/media-type)',
+      **p4lookup('\tif unsupportedMediaType(sigManifestDesc.MediaType) {\n' + P4_MTERR, sub(P4_PRED_NEG, '&& mediaType != ocispec.MediaTypeImageManifest', '&& mediaType == ""'))),
+ dict(name='p4-lookup-set-third-key', expect='flagged(lookup/media-type)',
+      **p4lookup('\tif !manifestMediaTypes[sigManifestDesc.MediaType] {\n' + P4_MTERR, sub(P4_SET, '\tocispec.MediaTypeImageManifest:         true,\n', '\tocispec.MediaTypeImageManifest:         true,\n\tocispec.MediaTypeImageIndex:            true,\n'))),
+ dict(name='p4-lookup-set-written-elsewhere', expect='flagged(lookup/media-type)',
+      **p4lookup('\tif !manifestMediaTypes[sigManifestDesc.MediaType] {\n' + P4_MTERR, P4_SET + '\n// AllowMediaType registers a further manifest media type.\nfunc AllowMediaType(mediaType string) {\n\tmanifestMediaTypes[mediaType] = true\n}\n'),
+      why='the set is not a constant of the program: membership says nothing about the two constants'),
+ dict(name='p4-lookup-set-absence-tested', expect='flagged(lookup/media-type)',
+      **p4lookup('\tif manifestMediaTypes[sigManifestDesc.MediaType] {\n' + P4_MTERR, P4_SET)),
+ # Q, listing side
+ dict(name='p4-list-guard-predicate-before-switch', expect='silent', **p4list('\t\tif !isManifestMediaType(node.MediaType) {\n\t\t\tcontinue\n\t\t}\n', P4_PRED_OR)),
+ dict(name='p4-list-guard-predicate-shared-with-lookup', expect='silent', **p4list('\t\tif !isManifestMediaType(node.MediaType) {\n\t\t\tcontinue\n\t\t}\n', P4_PRED_OR, P4_MT_PRED)),
+ dict(name='p4-list-guard-set-membership', expect='silent', **p4list('\t\tif !manifestMediaTypes[node.MediaType] {\n\t\t\tcontinue\n\t\t}\n', P4_SET)),
+ dict(name='p4-list-guard-predicate-negated', expect='silent', **p4list('\t\tif unsupportedMediaType(node.MediaType) {\n\t\t\tcontinue\n\t\t}\n', P4_PRED_NEG)),
+ dict(name='p4-list-guard-predicate-wrong', expect='flagged(list/only-manifest-media-types)',
+      **p4list('\t\tif !isManifestMediaType(node.MediaType) {\n\t\t\tcontinue\n\t\t}\n', sub(P4_PRED_OR, '|| mediaType == ocispec.MediaTypeImageManifest', '|| mediaType != ""'))),
+ dict(name='p4-list-guard-predicate-on-requested-descriptor', expect='flagged(list/only-manifest-media-types)',
+      **p4list('\t\tif !isManifestMediaType(desc.MediaType) {\n\t\t\tcontinue\n\t\t}\n', P4_PRED_OR),
+      why='the predicate is asked about the subject, not about the referrer'),
+ dict(name='p4-list-guard-set-third-key', expect='flagged(list/only-manifest-media-types)',
+      **p4list('\t\tif !manifestMediaTypes[node.MediaType] {\n\t\t\tcontinue\n\t\t}\n', sub(P4_SET, '\tocispec.MediaTypeImageManifest:         true,\n', '\tocispec.MediaTypeImageManifest:         true,\n\tocispec.MediaTypeImageIndex:            true,\n'))),
+ dict(name='p4-list-guard-missing', expect='flagged(list/only-manifest-media-types)', **p4list('', P4_PRED_OR)),
+]
+
+# R: decoder table
+P4_TABLE = r'''
+var signatureBlobsDecoders = map[string]func(manifestJSON []byte) ([]ocispec.Descriptor, error){
+	ocispec.MediaTypeImageManifest: func(manifestJSON []byte) ([]ocispec.Descriptor, error) {
+		var sigManifest ocispec.Manifest
+		if err := json.Unmarshal(manifestJSON, &sigManifest); err != nil {
+			return nil, err
+		}
+		return sigManifest.Layers, nil
+	},
+	artifactspec.MediaTypeArtifactManifest: func(manifestJSON []byte) ([]ocispec.Descriptor, error) {
+		var sigManifest artifactspec.Artifact
+		if err := json.Unmarshal(manifestJSON, &sigManifest); err != nil {
+			return nil, err
+		}
+		return sigManifest.Blobs, nil
+	},
+}
+
+'''
+P4_TABLE_NAMED = r'''
+var signatureBlobsDecoders = map[string]func([]byte) ([]ocispec.Descriptor, error){
+	ocispec.MediaTypeImageManifest:         imageManifestLayers,
+	artifactspec.MediaTypeArtifactManifest: artifactManifestBlobs,
+}
+
+func imageManifestLayers(manifestJSON []byte) ([]ocispec.Descriptor, error) {
+	var sigManifest ocispec.Manifest
+	if err := json.Unmarshal(manifestJSON, &sigManifest); err != nil {
+		return nil, err
+	}
+	return sigManifest.Layers, nil
+}
+
+func artifactManifestBlobs(manifestJSON []byte) ([]ocispec.Descriptor, error) {
+	var sigManifest artifactspec.Artifact
+	if err := json.Unmarshal(manifestJSON, &sigManifest); err != nil {
+		return nil, err
+	}
+	return sigManifest.Blobs, nil
+}
+
+'''
+P4_LOOKUP_TABLE = r'''func (c *repositoryClient) getSignatureBlobDesc(ctx context.Context, sigManifestDesc ocispec.Descriptor) (ocispec.Descriptor, error) {
+	decodeSignatureBlobs, ok := signatureBlobsDecoders[sigManifestDesc.MediaType]
+	if !ok {
+		return ocispec.Descriptor{}, fmt.Errorf("sigManifestDesc.MediaType requires %q or %q, got %q", artifactspec.MediaTypeArtifactManifest, ocispec.MediaTypeImageManifest, sigManifestDesc.MediaType)
+	}
+	if sigManifestDesc.Size > maxManifestSizeLimit {
+		return ocispec.Descriptor{}, fmt.Errorf("signature manifest too large: %d bytes", sigManifestDesc.Size)
+	}
+
+	// get the signature manifest from sigManifestDesc
+	var fetcher content.Fetcher = c.GraphTarget
+	if repo, ok := c.GraphTarget.(registry.Repository); ok {
+		fetcher = repo.Manifests()
+	}
+	manifestJSON, err := content.FetchAll(ctx, fetcher, sigManifestDesc)
+	if err != nil {
+		return ocispec.Descriptor{}, err
+	}
+
+	// get the signature blob descriptor from signature manifest
+	signatureBlobs, err := decodeSignatureBlobs(manifestJSON)
+	if err != nil {
+		return ocispec.Descriptor{}, err
+	}
+	if len(signatureBlobs) != 1 {
+		return ocispec.Descriptor{}, fmt.Errorf("signature manifest requries exactly one signature envelope blob, got %d", len(signatureBlobs))
+	}
+	return signatureBlobs[0], nil
+}
+
+'''
+P4_LOOKUP_TABLE_NIL = sub(P4_LOOKUP_TABLE, '\tdecodeSignatureBlobs, ok := signatureBlobsDecoders[sigManifestDesc.MediaType]\n\tif !ok {\n', '\tdecodeSignatureBlobs := signatureBlobsDecoders[sigManifestDesc.MediaType]\n\tif decodeSignatureBlobs == nil {\n')
+# the table consulted after the fetch, where the old if/else stood; the guard in front stays as it was
+P4_LOOKUP_TABLE_LATE = sub(sub(P4_LOOKUP_TABLE, '\tdecodeSignatureBlobs, ok := signatureBlobsDecoders[sigManifestDesc.MediaType]\n\tif !ok {\n', '\tif sigManifestDesc.MediaType != artifactspec.MediaTypeArtifactManifest && sigManifestDesc.MediaType != ocispec.MediaTypeImageManifest {\n'),
+                           '\tsignatureBlobs, err := decodeSignatureBlobs(manifestJSON)\n', '\tsignatureBlobs, err := signatureBlobsDecoders[sigManifestDesc.MediaType](manifestJSON)\n')
+def p4table(lookup, table):
+    return dict(file=R, find=LOOKUP0, replace=table.lstrip('\n') + lookup)
+
+VARIANTS += [
+ dict(name='p4-decoder-table', expect='silent', **p4table(P4_LOOKUP_TABLE, P4_TABLE)),
+ dict(name='p4-decoder-table-nil-test', expect='silent', **p4table(P4_LOOKUP_TABLE_NIL, P4_TABLE)),
+ dict(name='p4-decoder-table-named-functions', expect='silent', **p4table(P4_LOOKUP_TABLE, P4_TABLE_NAMED)),
+ dict(name='p4-decoder-table-consulted-after-fetch', expect='silent', **p4table(P4_LOOKUP_TABLE_LATE, P4_TABLE_NAMED)),
+ dict(name='p4-decoder-table-crossed', expect='flagged(lookup/decode-matches-media-type)',
+      **p4table(P4_LOOKUP_TABLE, sub(sub(sub(P4_TABLE_NAMED, 'ocispec.MediaTypeImageManifest:         imageManifestLayers', 'ocispec.MediaTypeImageManifest:         @@'), 'artifactspec.MediaTypeArtifactManifest: artifactManifestBlobs', 'artifactspec.MediaTypeArtifactManifest: imageManifestLayers'), '@@', 'artifactManifestBlobs'))),
+ dict(name='p4-decoder-table-third-key', expect='flagged(lookup/media-type)',
+      **p4table(P4_LOOKUP_TABLE, sub(P4_TABLE_NAMED, '\tartifactspec.MediaTypeArtifactManifest: artifactManifestBlobs,\n', '\tartifactspec.MediaTypeArtifactManifest: artifactManifestBlobs,\n\tocispec.MediaTypeImageIndex:            imageManifestLayers,\n'))),
+ dict(name='p4-decoder-table-registrable', expect='flagged(lookup/)',
+      **p4table(P4_LOOKUP_TABLE, P4_TABLE + '// RegisterSignatureBlobsDecoder adds a decoder.\nfunc RegisterSignatureBlobsDecoder(mediaType string, f func([]byte) ([]ocispec.Descriptor, error)) {\n\tsignatureBlobsDecoders[mediaType] = f\n}\n\n'),
+      why='the table can be extended at run time: neither the accepted media types nor the decoders are known'),
+ dict(name='p4-decoder-table-decode-error-ignored', expect='flagged(lookup/decode-error)',
+      **p4table(P4_LOOKUP_TABLE, sub(P4_TABLE, '\t\tvar sigManifest artifactspec.Artifact\n\t\tif err := json.Unmarshal(manifestJSON, &sigManifest); err != nil {\n\t\t\treturn nil, err\n\t\t}\n', '\t\tvar sigManifest artifactspec.Artifact\n\t\t_ = json.Unmarshal(manifestJSON, &sigManifest)\n'))),
+ dict(name='p4-decoder-table-caller-ignores-error', expect='flagged(lookup/decode-error)',
+      **p4table(sub(P4_LOOKUP_TABLE, '\tsignatureBlobs, err := decodeSignatureBlobs(manifestJSON)\n\tif err != nil {\n\t\treturn ocispec.Descriptor{}, err\n\t}\n', '\tsignatureBlobs, _ := decodeSignatureBlobs(manifestJSON)\n'), P4_TABLE)),
+ dict(name='p4-decoder-table-key-is-constant', expect='flagged(lookup/)',
+      **p4table(sub(P4_LOOKUP_TABLE, 'signatureBlobsDecoders[sigManifestDesc.MediaType]', 'signatureBlobsDecoders[ocispec.MediaTypeImageManifest]'), P4_TABLE),
+      why='every manifest is decoded as an image manifest and no media type is refused'),
+ dict(name='p4-decoder-table-late-guard-dropped', expect='flagged(lookup/media-type)',
+      **p4table(sub(P4_LOOKUP_TABLE_LATE, LOOKUP_MT0, ''), P4_TABLE_NAMED),
+      why='no media-type test before the fetch: an unknown media type is fetched and then panics on the nil decoder'),
+ dict(name='p4-decoder-table-wrong-list', expect='flagged(lookup/exactly-one-blob)',
+      **p4table(P4_LOOKUP_TABLE, sub(P4_TABLE, '\t\treturn sigManifest.Layers, nil\n', '\t\treturn []ocispec.Descriptor{sigManifest.Config}, nil\n'))),
+]
+
+# Q on the listing side, whole shape: arms merged, the type-specific decode in a helper keyed by a media-type argument
+# that returns a small record, guard clauses, the media-type guard a shared predicate
+P4_LOOP_MERGED = r'''	for _, node := range predecessors {
+		if !isManifestMediaType(node.MediaType) {
+			continue
+		}
+		if node.Size > maxManifestSizeLimit {
+			return nil, fmt.Errorf("referrer node too large: %d bytes", node.Size)
+		}
+		fetched, err := content.FetchAll(ctx, target, node)
+		if err != nil {
+			return nil, err
+		}
+		manifest, err := parseReferrerManifest(node.MediaType, fetched)
+		if err != nil {
+			return nil, err
+		}
+		if manifest.subject == nil || !content.Equal(*manifest.subject, desc) {
+			continue
+		}
+		// only keep nodes of "application/vnd.cncf.notary.signature"
+		if manifest.artifactType != ArtifactTypeNotation {
+			continue
+		}
+		node.ArtifactType = manifest.artifactType
+		node.Annotations = manifest.annotations
+		results = append(results, node)
+	}
+'''
+P4_PARSE = r'''
+type referrerManifest struct {
+	subject      *ocispec.Descriptor
+	artifactType string
+	annotations  map[string]string
+}
+
+func parseReferrerManifest(mediaType string, manifestJSON []byte) (referrerManifest, error) {
+	if mediaType == ocispec.MediaTypeImageManifest {
+		var image ocispec.Manifest
+		if err := json.Unmarshal(manifestJSON, &image); err != nil {
+			return referrerManifest{}, err
+		}
+		return referrerManifest{
+			subject:      image.Subject,
+			artifactType: image.Config.MediaType,
+			annotations:  image.Annotations,
+		}, nil
+	}
+	// OCI artifact manifest
+	var artifact artifactspec.Artifact
+	if err := json.Unmarshal(manifestJSON, &artifact); err != nil {
+		return referrerManifest{}, err
+	}
+	return referrerManifest{
+		subject:      artifact.Subject,
+		artifactType: artifact.ArtifactType,
+		annotations:  artifact.Annotations,
+	}, nil
+}
+'''
+def p4merged(loop, helpers):
+    return dict(file=R, find=LOOP0, replace=loop, edits=[tail(helpers.lstrip('\n'))])
+
+VARIANTS += [
+ dict(name='p4-list-merged-arms-predicate-guard', expect='silent', **p4merged(P4_LOOP_MERGED, P4_PARSE + P4_PRED_OR)),
+ dict(name='p4-list-merged-arms-set-guard', expect='silent',
+      **p4merged(sub(P4_LOOP_MERGED, '!isManifestMediaType(node.MediaType)', '!manifestMediaTypes[node.MediaType]'), P4_PARSE + P4_SET)),
+ dict(name='p4-list-merged-arms-inline-guard', expect='silent',
+      **p4merged(sub(P4_LOOP_MERGED, '!isManifestMediaType(node.MediaType)', 'node.MediaType != artifactspec.MediaTypeArtifactManifest && node.MediaType != ocispec.MediaTypeImageManifest'), P4_PARSE)),
+ dict(name='p4-list-merged-arms-predicate-wrong', expect='flagged(list/only-manifest-media-types)',
+      **p4merged(P4_LOOP_MERGED, P4_PARSE + sub(P4_PRED_OR, '|| mediaType == ocispec.MediaTypeImageManifest', '|| mediaType != ""')),
+      why='any non-empty media type is decoded as an artifact manifest and can be listed'),
+ dict(name='p4-list-merged-arms-parse-keyed-by-subject', expect='flagged(list/)',
+      **p4merged(sub(P4_LOOP_MERGED, 'parseReferrerManifest(node.MediaType, fetched)', 'parseReferrerManifest(desc.MediaType, fetched)'), P4_PARSE + P4_PRED_OR),
+      why='the manifest is decoded by the media type of the subject, not by its own'),
+ dict(name='p4-list-merged-arms-parse-crossed', expect='flagged(list/)',
+      **p4merged(P4_LOOP_MERGED, sub(P4_PARSE, '\tif mediaType == ocispec.MediaTypeImageManifest {\n', '\tif mediaType != ocispec.MediaTypeImageManifest {\n') + P4_PRED_OR)),
+ dict(name='p4-list-merged-arms-type-test-after-append', expect='flagged(artifact-type)',
+      **p4merged(sub(P4_LOOP_MERGED, '\t\tif manifest.artifactType != ArtifactTypeNotation {\n\t\t\tcontinue\n\t\t}\n', ''), P4_PARSE + P4_PRED_OR)),
+]
